@@ -222,6 +222,12 @@ fn rt_case(ctx: &PCtx, di: usize, c: &PCase) -> PResult {
         ensure!(other.as_ref().ok() == Some(&got), "segmented-buffer-decode-differs", "{}: decoding the same bytes from a segmented buffer (Buf::chain, split at {} of {}) gives a different message than decoding them contiguously\n contiguous {:?}\n segmented  {:?}", name, k, bytes.len(), got, other);
     }
     ensure!(out.chain_mismatch.is_none(), "segmented-buffer-decode-differs", "{}: decoding the same bytes from a segmented buffer (Buf::chain) differs from decoding them contiguously: {}\n m = {}", name, out.chain_mismatch.clone().unwrap_or_default(), vcore::evidence::truncate(&out.debug, 2000));
+    for (n, alone, framed) in &out.frame_suspects {
+        let a = decode_msg(doc, &c.msg, alone).map(|m| doc.canon(&c.msg, &m));
+        let f = decode_msg(doc, &c.msg, framed).map(|m| doc.canon(&c.msg, &m));
+        ensure!(a.is_ok() && a.as_ref().ok() == f.as_ref().ok(), "length-delimited-frame", "{}: a frame announcing {} of {} bytes, followed by more data, decodes to a different message than those {} bytes alone\n alone  {:?}\n framed {:?}", name, n, bytes.len(), n, a, f);
+    }
+    ensure!(out.frame_mismatch.is_none(), "length-delimited-frame", "{}: {}\n m = {}", name, out.frame_mismatch.clone().unwrap_or_default(), out.debug);
     ensure!(out.framed_ok, "length-delimited-framing", "{}: encode_length_delimited / decode_length_delimited does not round-trip\n m = {}", name, out.debug);
     check_debug_scalars(doc, c, &out.debug)?;
     Ok(())
@@ -345,7 +351,7 @@ fn run_rt(ctx: &PCtx, prop: &str, rule: &str, choices: bool, unknowns: bool, per
 }
 
 pub fn c05(ctx: &PCtx) -> i32 {
-    run_rt(ctx, "C05", "generated part: every message type of the protobuf corpus (kitchen sinks with every scalar kind in singular, optional, repeated, map-key, map-value and oneof position for proto2 and proto3, plus generated documents) x schema-directed values; canonical reference encoding -> Message::decode -> encoded_len / encode -> reference decoder; value equal, encoded_len = bytes written, decode(encode(m)) == m, length-delimited framing round-trips; non-trivial = value differs from the all-default message", false, false, (150, 3000))
+    run_rt(ctx, "C05", "generated part: every message type of the protobuf corpus (kitchen sinks with every scalar kind in singular, optional, repeated, map-key, map-value and oneof position for proto2 and proto3, plus generated documents) x schema-directed values; canonical reference encoding -> Message::decode -> encoded_len / encode -> reference decoder; value equal, encoded_len = bytes written, decode(encode(m)) == m, length-delimited framing round-trips and a frame followed by more data is decoded like the announced slice alone (announced length = len, len-1, len-2, len/2); non-trivial = value differs from the all-default message", false, false, (150, 3000))
 }
 
 pub fn c06(ctx: &PCtx) -> i32 {
@@ -539,6 +545,19 @@ fn total_case(ctx: &PCtx, di: usize, c: &PFaultCase) -> PResult {
     let name = doc.message(&c.base.msg).name.clone();
     observe(&format!("pb-decode-{}", name), lim, || (e.ops.decode_only)(&input)).map_err(|f| Fail::new(&normalize_key(&f.key), format!("{} [{}] input {}", f.msg, what, vcore::tval::hex(&input[..input.len().min(96)]))))?;
     observe(&format!("pb-decode-delimited-{}", name), lim, || (e.ops.decode_delimited_only)(&input)).map_err(|f| Fail::new(&normalize_key(&f.key), format!("{} [{}] input {}", f.msg, what, vcore::tval::hex(&input[..input.len().min(96)]))))?;
+    // framing decodes exactly the announced slice, whatever follows the frame
+    let (fd, _) = observe(&format!("pb-frame-{}", name), lim, || (e.ops.frame_diff)(&input)).map_err(|f| Fail::new(&normalize_key(&f.key), format!("{} [{}] input {}", f.msg, what, vcore::tval::hex(&input[..input.len().min(96)]))))?;
+    if let Some(m) = fd.mismatch {
+        return Err(Fail::new("length-delimited-frame", format!("{}: {} [{}] input {}", name, m, what, vcore::tval::hex(&input[..input.len().min(96)]))));
+    }
+    for (n, alone, framed) in &fd.suspects {
+        let a = decode_msg(doc, &c.base.msg, alone).map(|m| doc.canon(&c.base.msg, &m));
+        let f = decode_msg(doc, &c.base.msg, framed).map(|m| doc.canon(&c.base.msg, &m));
+        // (re-encodings the reference decoder refuses - pilota does not validate UTF-8 - cannot be compared)
+        if a.is_ok() && f.is_ok() && a.as_ref().ok() != f.as_ref().ok() {
+            return Err(Fail::new("length-delimited-frame", format!("{}: a frame announcing {} of {} bytes, followed by more data, decodes to a different message than those bytes alone [{}] input {}\n alone  {:?}\n framed {:?}", name, n, input.len(), what, vcore::tval::hex(&input[..input.len().min(96)]), a, f)));
+        }
+    }
     Ok(())
 }
 
@@ -749,7 +768,7 @@ pub fn c10(ctx: &PCtx) -> i32 {
     {
         let mut r = rec.borrow_mut();
         r.level = "fault_enumeration";
-        r.rule = "every generated message type x (random bytes | reference encoding of a schema-directed value, optionally with unknown records, with one fault: truncation, bit flip, a length prefix at the first three nesting levels overwritten with 0, 1, rem-1, rem+1, i32::MAX, u32::MAX, u64::MAX, 16Mi); Message::decode and decode_length_delimited under panic capture and a counting allocator (bound 1 MiB + 4096 x input); nesting chains of 1..300 wire levels through embedded messages, map entries (two levels each), unknown groups, and mixtures: <= 100 accepted (unknown groups: <= 99), >= 101 rejected; non-trivial = single-fault mutant of a valid encoding".into();
+        r.rule = "every generated message type x (random bytes | reference encoding of a schema-directed value, optionally with unknown records, with one fault: truncation, bit flip, a length prefix at the first three nesting levels overwritten with 0, 1, rem-1, rem+1, i32::MAX, u32::MAX, u64::MAX, 16Mi); Message::decode and decode_length_delimited under panic capture and a counting allocator (bound 1 MiB + 4096 x input); a frame `varint(n) ++ input ++ more data` is accepted iff input[..n] is, with the same message and the reader right behind the frame; nesting chains of 1..300 wire levels through embedded messages, map entries (two levels each), unknown groups, and mixtures: <= 100 accepted (unknown groups: <= 99), >= 101 rejected; non-trivial = single-fault mutant of a valid encoding".into();
         r.assumptions = vec!["runtime field codecs are exercised through the generated messages (every scalar kind in every position in the kitchen-sink messages); group decoding is exercised through unknown group records only (pilota-build does not support group fields)".into()];
     }
     let total = |ctx: &PCtx, di: usize, c: &PFaultCase| total_case(ctx, di, c);
